@@ -5,7 +5,20 @@ namespace AutoVerif.C04
 
 /-- the off-chain configuration as the plugin sees it: the wire values run through `ensureMinimumDefaults` -/
 def cfgOf (j : Json) : R Cfg := do
-  pure (ensureDefaults (← intF j "batch") (← natF j "gasLimit") (← natF j "overhead"))
+  let gone ← (do pure ((← listOf asStr (fieldD j "absent" .null)) ++ (← listOf asStr (fieldD j "null" .null))))
+  let b ← intF j "batch"
+  let g ← natF j "gasLimit"
+  let o ← natF j "overhead"
+  let doc : WireCfg :=
+    { batch := if gone.contains "batch" then none else some b,
+      gasLimit := if gone.contains "gasLimit" then none else some g,
+      overhead := if gone.contains "overhead" then none else some o }
+  pure (decodeCfg doc)
+
+def partialTags (j : Json) : R (List String) := do
+  let ab ← listOf asStr (fieldD j "absent" .null)
+  let nu ← listOf asStr (fieldD j "null" .null)
+  pure ((ab.map (fun k => "config-member-absent:" ++ k)) ++ (nu.map (fun k => "config-member-null:" ++ k)))
 
 def handle (input impl : Json) : R Reply := do
   let cfg ← cfgOf (← field input "cfg")
@@ -24,7 +37,8 @@ def handle (input impl : Json) : R Reply := do
   -- when the encoder fails the call fails: libocr gets an error, no reports are used, the property has nothing to say
   let sm := wantErr || spec cfg agreed want
   let si := (errS != "") || spec cfg agreed got
-  let tags :=
+  let ptags ← partialTags (← field input "cfg")
+  let tags := ptags ++
     (if want.length > 1 then ["multi-report"] else []) ++
     (if bad != "" then ["outcome-refused:" ++ bad] else []) ++
     (if decide (failAt > 0) then [if wantErr then s!"encoder-fails:call-{min failAt 3}{if failAt > 3 then "+" else ""}" else "encoder-armed-not-reached"] else []) ++
